@@ -100,27 +100,46 @@ Definition try_finalize (H : Z) (prm : rt_params) (c : committee) (p : pool) (st
    ErrNotInCommittee are the same value whether returned by verify or by add *)
 Definition tx_code (c : N) : N := if c =? 22 then 2 else if c =? 24 then 1 else c.
 
-(* transactions.go:44 executorCommit with a single commitment.  Result code: 0 ok, verify /
-   add classes as in Verify.v / Pool.v, 30 suspended, 31 no committee, 32 no pool. *)
-Definition executor_commit (H : Z) (prm : rt_params) (st : rt_state) (vc : vcommit) : rt_state * N :=
-  if rs_suspended st then (st, 30)                                         (* :31 *)
-  else match rs_committee st, rs_pool st with
-  | None, _ => (st, 31)                                                    (* :34 *)
-  | _, None => (st, 32)                                                    (* :37 *)
-  | Some c, Some p =>
-      match verify (rs_round st) (lookup (rs_round st) (rp_hashes prm)) (rp_max_msgs prm) vc with
+(* transactions.go:94-121: the verify-and-add loop over the commitments of ONE transaction;
+   code 0 = all accepted, otherwise the error of the first rejected commitment *)
+Fixpoint commit_all (round bh mm : N) (c : committee) (p : pool) (vcs : list vcommit) : pool * N :=
+  match vcs with
+  | [] => (p, 0)
+  | vc :: r =>
+      match verify round bh mm vc with
       | VOk =>
           let '(p1, e) := add c p (vc_ec vc) in
           match e with
-          | AOk =>
-              let nt := if hr p =? hr p1 then rs_next_timeout st
-                        else (H + rp_round_timeout prm)%Z in               (* :135-151 *)
-              (mkRS (rs_round st) (rs_root st) (rs_htype st) (Some p1) (rs_committee st)
-                    (rs_suspended st) nt, 0)
-          | _ => (st, add_class e)          (* the transaction fails, nothing is stored *)
+          | AOk => commit_all round bh mm c p1 r
+          | _ => (p1, add_class e)
           end
-      | e => (st, tx_code (verify_code e))
+      | e => (p, tx_code (verify_code e))
       end
+  end.
+
+(* transactions.go:44 executorCommit.  All-or-nothing: the runtime state is stored only when
+   every commitment of the transaction was accepted (:159).  Result: (state, code, registered
+   for finalization in EndBlock).  Code: 0 ok, verify / add classes as in Verify.v / Pool.v,
+   30 suspended, 31 no committee, 32 no pool. *)
+Definition executor_commit (H : Z) (prm : rt_params) (st : rt_state) (vcs : list vcommit)
+  : rt_state * N * bool :=
+  match vcs with
+  | [] => (st, 0, false)                                                   (* :69-71 *)
+  | _ =>
+  if rs_suspended st then (st, 30, false)                                  (* :31 *)
+  else match rs_committee st, rs_pool st with
+  | None, _ => (st, 31, false)                                             (* :34 *)
+  | _, None => (st, 32, false)                                             (* :37 *)
+  | Some c, Some p =>
+      let '(p1, code) := commit_all (rs_round st) (lookup (rs_round st) (rp_hashes prm))
+                                    (rp_max_msgs prm) c p vcs in
+      if code =? 0 then
+        let nt := if hr p =? hr p1 then rs_next_timeout st
+                  else (H + rp_round_timeout prm)%Z in                     (* :135-151 *)
+        (mkRS (rs_round st) (rs_root st) (rs_htype st) (Some p1) (rs_committee st)
+              (rs_suspended st) nt, 0, true)                               (* :159, :172 *)
+      else (st, code, false)          (* the transaction fails, nothing is stored *)
+  end
   end.
 
 (* one consensus block *)
@@ -129,15 +148,15 @@ Record ablock := mkAB {
   (* BeginBlock: None = no committee change for this runtime; Some None = no committee
      elected (suspend); Some (Some c) = new committee *)
   ab_epoch : option (option committee);
-  ab_txs : list vcommit }.
+  ab_txs : list (list vcommit) }.   (* ExecutorCommit transactions, each with its commitments *)
 
-Fixpoint run_txs (H : Z) (prm : rt_params) (st : rt_state) (txs : list vcommit) (fin : bool)
+Fixpoint run_txs (H : Z) (prm : rt_params) (st : rt_state) (txs : list (list vcommit)) (fin : bool)
   : rt_state * list N * bool :=
   match txs with
   | [] => (st, [], fin)
-  | vc :: r =>
-      let '(st1, code) := executor_commit H prm st vc in
-      let '(st2, codes, fin2) := run_txs H prm st1 r (fin || (code =? 0)) in
+  | vcs :: r =>
+      let '(st1, code, reg) := executor_commit H prm st vcs in
+      let '(st2, codes, fin2) := run_txs H prm st1 r (fin || reg) in
       (st2, code :: codes, fin2)
   end.
 
